@@ -1224,9 +1224,17 @@ class RTCSctpTransport(AsyncIOEventEmitter):
         # handle gap blocks
         loss = False
         if chunk.gaps:
+            # only TSNs up to the last outstanding one matter, do not expand
+            # gap blocks beyond it
+            last_pos = 0
+            if self._sent_queue:
+                last_pos = (
+                    self._sent_queue[-1].tsn - chunk.cumulative_tsn
+                ) % SCTP_TSN_MODULO
             seen = set()
+            highest_seen_tsn = chunk.cumulative_tsn
             for gap in chunk.gaps:
-                for pos in range(gap[0], gap[1] + 1):
+                for pos in range(gap[0], min(gap[1], last_pos) + 1):
                     highest_seen_tsn = (chunk.cumulative_tsn + pos) % SCTP_TSN_MODULO
                     seen.add(highest_seen_tsn)
 
